@@ -2,7 +2,7 @@
 # tools/try_mutant.sh <patch.diff> [tier] [check ids…]  — apply a seeded change to /repo, run checks, undo it.
 # Prints one line per check: id, exit code, VIOLATION signatures.  Evidence and replay files written while the
 # change is applied are moved aside (they describe the mutant, not /repo) and the previous ones restored.
-patch=$1; tier=${2:-quick}; shift 2
+patch=$(realpath "$1"); tier=${2:-quick}; shift 2
 ids=${@:-$(seq -f "C%02g" 1 20)}
 cd /repo || exit 2
 if ! git diff --quiet; then echo "/repo has uncommitted changes"; exit 2; fi
